@@ -92,6 +92,30 @@ def run(prog, chk):
             chk.bad("C14.T1", f, "forward-scan-from-arbitrary-equal-entry", f.where(i),
                     "this scan walks forward from MultiMap::find(key), but find may return an equal entry that is not the first: entries in front of it "
                     "are missed (a removed timer stays queued and fires on a destroyed object)")
+    # the scan itself: an entry with the wanted key that is not the wanted entry must not end the scan
+    rt = sfn(prog, P + "remove", 1, "TimerImpl")
+    heads = [b for b in rt.blocks.values() if b.get("tk") == "ForStmt" and b.get("cond") is not None]
+    if not heads:
+        chk.bad("C14.T1", rt, "timer-scan-missing", "%s:%s" % (rt.file, rt.line), "remove(TimerImpl&) no longer scans the queue for the timer's entry")
+    else:
+        body = heads[0]["succ"][0]
+        verdicts = {}
+        for rel, kv in (("equal", 5), ("greater", 6)):
+            val = {"i.key()": kv, "timer.executionTime": 5, "(*i == &timer)": 0, "(i.operator*() == &timer)": 0}
+            # the element test: any comparison of the iterated value with &timer evaluates to false (not the wanted entry)
+            for b in rt.blocks.values():
+                c = b.get("cond")
+                if c is not None and "&timer" in fin.key(rt, c):
+                    val[fin.key(rt, c)] = 0
+            seen, end = fin.walk(rt, body, val, stop_at_loop_back=True)
+            verdicts[rel] = "continues" if end == "loop back" else "leaves"
+        if verdicts.get("equal") == "continues":
+            chk.ok("C14.T1", rt, "timer scan continues over other entries with the same due time (and %s at a later one)" % verdicts.get("greater"), "%s:%s" % (rt.file, rt.line),
+                   "loop body evaluated for key == wanted / key > wanted with a non-matching entry", evals=2)
+        else:
+            chk.bad("C14.T1", rt, "scan-stops-at-equal-key", "%s:%s" % (rt.file, rt.line),
+                    "the scan for the removed timer leaves the loop at an entry with the same due time that is not the wanted one: with several timers due at the same "
+                    "tick only the first is ever found, the removed timer's queue entry survives and fires on freed memory")
     # ------------------------------------------------------------------ T2
     for psub, unreg, pool in (("ListenerImpl", r"_sockets\.remove\(listener\)", r"_listeners\.remove\("),
                               ("EstablisherImpl", r"_sockets\.remove\(establisher\)", r"_establishers\.remove\("),
